@@ -144,6 +144,45 @@ class Ledger:
                 self.sites.append(Site(fn, b, "exit", "exit(%s)" % ", ".join(expr_str(a, 20) for a in args), t.get("sp"), macs, args))
             elif LOCALKEY.search(c):
                 pass  # access after destruction only; RefCell borrows inside are listed on their own
+            elif c in self._tls_borrowers():
+                # a local wrapper around LocalKey::with_borrow(_mut) (`with_symbol_table(|sym| ..)`): the RefCell is borrowed for as long
+                # as the closure runs, so the closure must not get back to the same wrapper
+                self.sites.append(Site(fn, b, "tls-borrow", "%s(closure)" % short(c).rsplit("::", 1)[-1], t.get("sp"), macs, args,
+                                       {"callee": c, "closures": [x[3:] if x.startswith("fn:") else x for x in t["f"].get("closures", [])]}))
+
+    def _tls_borrowers(self):
+        if not hasattr(self, "_tlsb"):
+            self._tlsb = set()
+            for n, f in self.prog.fns.items():
+                if f.bkind == "fn" and (n.startswith("lace::") or n.startswith("bin::")) and "{closure" not in n:
+                    if any(c and re.search(r"LocalKey::<.*>::with_borrow(_mut)?$", c) for b, t, c in f.calls()):
+                        self._tlsb.add(n)
+        return self._tlsb
+
+    def t_tls(self, site):
+        if site.kind != "tls-borrow":
+            return None
+        w = site.extra["callee"]
+        cls = site.extra.get("closures") or []
+        if not cls:
+            return None
+        for cl in cls:
+            if cl not in self.prog.fns:
+                continue
+            r = self.ctx.cg.reachable([cl])
+            again = sorted(x for x in self._tls_borrowers() if x in r and self._same_key(w, x))
+            if again:
+                site.why = "the closure can reach `%s` again (%s)" % (short(again[0]), " -> ".join(short(x) for x in (self.ctx.cg.path(cl, lambda y, _a=again[0]: y == _a) or [cl, again[0]])))
+                return None
+        return "not re-entrant: nothing the closure calls borrows the same thread-local again"
+
+    def _same_key(self, a, b):
+        """do two wrappers borrow the same thread-local? (compared by the statics their bodies mention)"""
+        def keys(n):
+            f = self.prog.fns[n]
+            return {str(x[1]) for bb in f.live_blocks() for a_ in (f.term(bb).get("args") or []) for x in expr_walk(f.expr(a_, 4)) if x[0] in ("uneval", "static", "fn")}
+        ka, kb = keys(a), keys(b)
+        return not ka or not kb or bool(ka & kb)
 
     def _ty_of(self, fn, op):
         if op.get("k") == "const":
@@ -186,7 +225,7 @@ class Ledger:
 
     # ------------------------------------------------------------------ discharge
     def discharge(self, site):
-        for tac in (self.t_const, self.t_infeasible, self.t_interval, self.t_guarded, self.t_peeked, self.t_constargs):
+        for tac in (self.t_const, self.t_tls, self.t_infeasible, self.t_interval, self.t_guarded, self.t_peeked, self.t_constargs):
             why = tac(site)
             if why:
                 site.tactic, site.why = tac.__name__[2:], why
